@@ -210,6 +210,9 @@ type c18Env struct {
 	noAuto       bool          // no auto-pausing streams
 	forceFail    int           // next beforePublish hits fail unconditionally (still <= 2 per event)
 	gate         chan struct{} // when set, beforePublish waits for it (bounded)
+	gateWaiting  int           // dispatchers that have reached the closed gate so far
+	gateExpired  int           // gate waits that ended by the 90 s bound instead of the release
+	gateFail     bool          // publishes held at the gate fail when it is released
 	wantRestart  bool
 	known        map[uint64]c18Entry
 	heard        int
@@ -313,9 +316,38 @@ func (e *c18Env) installHooks(failBudget, dupBudget, failPct, dupPct int, restar
 		gate := e.gate
 		e.mu.Unlock()
 		if gate != nil {
-			select {
-			case <-gate:
-			case <-time.After(90 * time.Second):
+			e.mu.Lock()
+			e.gateWaiting++
+			e.tracef("hook beforePublish server=%s id=%d -> dispatcher held at the gate", sid, id)
+			e.mu.Unlock()
+			bound := time.After(90 * time.Second)
+			for held := true; held; {
+				select {
+				case <-gate:
+					held = false
+					e.mu.Lock()
+					failNow := e.gateFail
+					if failNow {
+						e.nFail++
+						e.tracef("hook beforePublish server=%s id=%d -> held publish FAILS at the release of the gate", sid, id)
+					}
+					e.mu.Unlock()
+					if failNow {
+						return errors.New("c18: injected publish failure after a long block")
+					}
+				case <-bound:
+					held = false
+					e.mu.Lock()
+					e.gateExpired++
+					e.mu.Unlock()
+				case <-time.After(50 * time.Millisecond):
+					// Server.Stop() waits for the dispatcher goroutine: a held
+					// publish of a server that is being stopped fails instead
+					if n := e.c.Nodes[strings.TrimPrefix(sid, e.prefix)]; n != nil && !n.IsUp() {
+						e.logf("hook beforePublish server=%s id=%d -> held publish fails, the server is stopping", sid, id)
+						return errors.New("c18: held publish aborted, server is stopping")
+					}
+				}
 			}
 		}
 		e.mu.Lock()
@@ -1014,6 +1046,7 @@ func (e *c18Env) finish(fenceName string) {
 	e.step("fence(#%d)", fenceIdx)
 	var events []c18Event
 	deadline := time.Now().Add(120 * time.Second)
+	waitStart, lastProbe := time.Now(), time.Now()
 	arrived := false
 	for !arrived {
 		evs, err := e.readEvents()
@@ -1036,6 +1069,16 @@ func (e *c18Env) finish(fenceName string) {
 			e.fail("C18:"+e.unit+":stuck:activity-partition-not-started-after-snapshot-restore",
 				fmt.Sprintf("committed operations up to the fence #%d can never be listed: %s", fenceIdx, what), events, ops)
 			return
+		}
+		if time.Since(lastProbe) > time.Second && time.Since(waitStart) > 3*time.Second {
+			lastProbe = time.Now()
+			if what := e.leaderWithoutDispatcher(fenceIdx); what != "" {
+				e.absorbAll()
+				ops, _, _ := e.listedOps()
+				e.fail("C18:"+e.unit+":stuck:metadata-leader-without-dispatcher",
+					fmt.Sprintf("committed operations up to the fence #%d can never be listed: %s", fenceIdx, what), events, ops)
+				return
+			}
 		}
 		time.Sleep(40 * time.Millisecond)
 	}
